@@ -67,7 +67,7 @@ HARNESSES = [
     # ---------------------------------------------------------------- store (C02, C09, C04, C07, C08)
     dict(name="c02_store_reads_agree_with_abstract_map", file="store.rs", props=["C02", "C09", "C16"], timeout=600,
          encodes=["tinylfu_cached::cache::store::Store::{get,get_ref,contains,is_present}", "StoredValue::is_alive", "KeyValueRef::{key,value}"]),
-    dict(name="c02_store_write_step", file="store.rs", props=["C02", "C03", "C04"], timeout=600,
+    dict(name="c02_store_write_step", file="store.rs", props=["C02", "C03", "C04", "C08"], timeout=600,
          encodes=["tinylfu_cached::cache::store::Store::{put,put_with_ttl,delete,mark_deleted,update,clear}", "UpdateResponse::{did_update_happen,existing_expiry,new_expiry,value,key_id_or_panic}"]),
     # ---------------------------------------------------------------- admission (C06, C01, C03)
     dict(name="c06_maybe_add_rule_1_resident", file="admission_policy.rs", props=["C06", "C01", "C03", "C05"], timeout=1200,
@@ -125,7 +125,7 @@ HARNESSES = [
          encodes=["tinylfu_cached::cache::cached::CacheD::{get_ref,delete,get,total_weight_used}", "Store::mark_deleted"]),
     dict(name="c08_put_or_update_step_q0", tier="thorough", group="c08_put_or_update_step", file="cached.rs", props=["C08", "C10", "C18"], timeout=1500,
          encodes=["tinylfu_cached::cache::cached::CacheD::{put_or_update,get,key_description}", "PutOrUpdateRequest::updated_weight", "Store::update", "StoredValue::update", "UpdateResponse::type_of_expiry_update", "TTLTicker::{put,update,delete}", "AdmissionPolicy::{weight_of,update}", "CacheWeight::update", "CommandExecutor::{send,spin (worker closure: UpdateWeight arm)}"]),
-    dict(name="c08_put_or_update_step_q1", tier="quick", group="c08_put_or_update_step", file="cached.rs", props=["C08"], timeout=1500,
+    dict(name="c08_put_or_update_step_q1", tier="thorough", group="c08_put_or_update_step", file="cached.rs", props=["C08"], timeout=1500,
          encodes=["tinylfu_cached::cache::cached::CacheD::{put_or_update,get,key_description}", "PutOrUpdateRequest::updated_weight", "Store::update", "StoredValue::update", "UpdateResponse::type_of_expiry_update", "TTLTicker::{put,update,delete}", "AdmissionPolicy::{weight_of,update}", "CacheWeight::update", "CommandExecutor::{send,spin (worker closure: UpdateWeight arm)}"]),
     dict(name="c08_put_or_update_step_q2", tier="thorough", group="c08_put_or_update_step", file="cached.rs", props=["C08"], timeout=1500,
          encodes=["tinylfu_cached::cache::cached::CacheD::{put_or_update,get,key_description}", "PutOrUpdateRequest::updated_weight", "Store::update", "StoredValue::update", "UpdateResponse::type_of_expiry_update", "TTLTicker::{put,update,delete}", "AdmissionPolicy::{weight_of,update}", "CacheWeight::update", "CommandExecutor::{send,spin (worker closure: UpdateWeight arm)}"]),
